@@ -65,6 +65,7 @@ func VerifC08Tx() {
 	nonceBefore := signerBefore.General.Nonce
 	symx.Assume(nonceBefore < ^uint64(0)) // 2^64-1 transactions by one account: unreachable
 	balBefore := signerBefore.General.Balance.Clone()
+	declaredFee := tx.Fee.Amount.Clone() // (a copy: the code under test must not be able to change what "declared" means)
 
 	w.vBegin()
 	w.ctx.SetTxSigner(w.pks[0])
@@ -84,10 +85,10 @@ func VerifC08Tx() {
 		signerAfter, _ := w.state.Account(w.ctx, w.addrs[0])
 		symx.Assert(signerAfter.General.Nonce == nonceBefore+1, "nonce not advanced by exactly one")
 		wantBal := balBefore.Clone()
-		symx.Assert(wantBal.Sub(&tx.Fee.Amount) == nil && signerAfter.General.Balance.Cmp(wantBal) == 0, "signer not charged exactly the declared fee")
+		symx.Assert(wantBal.Sub(declaredFee) == nil && signerAfter.General.Balance.Cmp(wantBal) == 0, "signer not charged exactly the declared fee")
 		feesAfter := stakingState.BlockFees(w.ctx)
 		wantFees := feesBefore.Clone()
-		_ = wantFees.Add(&tx.Fee.Amount)
+		_ = wantFees.Add(declaredFee)
 		symx.Assert(feesAfter.Cmp(wantFees) == 0, "fee accumulator not credited exactly the declared fee")
 		// nothing else changed: restoring the signer's account restores the whole state
 		restore := *signerAfter
